@@ -1,6 +1,8 @@
 package flags
 
 import (
+	"fmt"
+
 	"github.com/sboehler/knut/lib/common/date"
 	"github.com/spf13/cobra"
 )
@@ -17,6 +19,14 @@ func (mp *Multiperiod) Setup(cmd *cobra.Command) {
 	mp.interval.Setup(cmd, date.Once)
 }
 
-func (mp *Multiperiod) Partition(clip date.Period) date.Partition {
-	return date.NewPartition(mp.period.Value().Clip(clip), mp.interval.Value(), mp.last)
+// Partition partitions the period given by the flags, clipped to the given period (the
+// journal's). The zero time stands for "no --from": if the clipped period still starts at the
+// zero time (the journal has a transaction on or before 0001-01-01) there is no start date to
+// partition from, which is reported as an error.
+func (mp *Multiperiod) Partition(clip date.Period) (date.Partition, error) {
+	period := mp.period.Value().Clip(clip)
+	if period.Start.IsZero() {
+		return date.Partition{}, fmt.Errorf("the reporting period has no start date: the journal has a transaction on or before 0001-01-01, use --from")
+	}
+	return date.NewPartition(period, mp.interval.Value(), mp.last), nil
 }
